@@ -96,6 +96,15 @@ Definition included (root : tree) (e : entry) : Prop :=
   exists p ch n sub, dir_at root p (Dir true ch) /\ In (n, (false, sub)) ch /\
                      fst e = p ++ [n] /\ kind_of_tree sub = Some (snd e).
 
+(* What is found at a path, whatever the filters say and whether or not directories are readable. *)
+Inductive at_path : tree -> path -> bool * tree -> Prop :=
+| ap_one r ch n c : In (n, c) ch -> at_path (Dir r ch) [n] c
+| ap_more r ch n c p c' : In (n, c) ch -> p <> [] -> at_path (snd c) p c' -> at_path (Dir r ch) (n :: p) c'.
+(* sibling names are unique (as in a real directory) *)
+Inductive unique_names : tree -> Prop :=
+| un_leaf k : unique_names (Leaf k)
+| un_dir r ch : NoDup (map fst ch) -> Forall (fun c : child => unique_names (snd (snd c))) ch -> unique_names (Dir r ch).
+
 (* every entry below the top level is preceded by the entry of its folder *)
 Definition parent_first (l : list entry) : Prop :=
   forall a b p n k, l = a ++ (p ++ [n], k) :: b -> p <> [] -> In (p, KDir) a.
